@@ -265,6 +265,6 @@ pp_twprge_comma_remove = re.compile(
     # Twp/Rge pattern.
     {twprge_regex.pattern}
 
-    # Deadspace ...
-    ([\s:,;\.\-–—]*)
+    # Deadspace ... (but not a decimal point, as in 'T154N-R97W, .5 acre')
+    (([\s:,;\-–—]|\.(?!\d))*)
     """, re.IGNORECASE | re.VERBOSE)
